@@ -166,87 +166,232 @@ theorem between_wf (l r : Expr) : WF (optimizeBetweenExpr l r) := by
   unfold optimizeBetweenExpr; dsimp only
   (repeat' split) <;> simp_all [WF, Bytes.lt_iff] <;> grind
 
+/-! ### the chain of `&`/`and`: conjunct types, the tree combination, the pair test -/
+
+/-- `intersectConjuncts`: the conjuncts combined along the tree -/
+def andTree (e : Expr) : Scan := (infer e).tree
+
+/-- `conjunctScanTypes`: the scan types of the conjuncts, left to right -/
+def leafTypes (e : Expr) : List Scan := (infer e).leaves
+
+theorem optimizeExpr_and (p : Nat) (l r : Expr) :
+    optimizeExpr (.binop p .and l r) =
+      if emptyPair (leafTypes l ++ leafTypes r) then .empty else andScan (andTree l) (andTree r) := by
+  rfl
+
+theorem optimizeExpr_kwAnd (p : Nat) (l r : Expr) :
+    optimizeExpr (.binop p .kwAnd l r) =
+      if emptyPair (leafTypes l ++ leafTypes r) then .empty else andScan (andTree l) (andTree r) := by
+  rfl
+
+theorem andTree_and (p : Nat) (l r : Expr) :
+    andTree (.binop p .and l r) = andScan (andTree l) (andTree r) := by simp [andTree, infer]
+theorem andTree_kwAnd (p : Nat) (l r : Expr) :
+    andTree (.binop p .kwAnd l r) = andScan (andTree l) (andTree r) := by simp [andTree, infer]
+theorem leafTypes_and (p : Nat) (l r : Expr) :
+    leafTypes (.binop p .and l r) = leafTypes l ++ leafTypes r := by simp [leafTypes, infer]
+theorem leafTypes_kwAnd (p : Nat) (l r : Expr) :
+    leafTypes (.binop p .kwAnd l r) = leafTypes l ++ leafTypes r := by simp [leafTypes, infer]
+
+/-- is the node an `&` / `and` -/
+def isAnd : Expr → Bool
+  | .binop _ .and _ _ => true
+  | .binop _ .kwAnd _ _ => true
+  | _ => false
+
+/-- for a node that is not `&`/`and` the three components coincide -/
+theorem infer_single {e : Expr} (h : isAnd e = false) : infer e = .single (optimizeExpr e) := by
+  unfold optimizeExpr
+  fun_induction infer e <;> first | rfl | (simp [isAnd] at h)
+
+theorem andTree_leaf {e : Expr} (h : isAnd e = false) : andTree e = optimizeExpr e := by
+  simp [andTree, infer_single h, Conj.single]
+
+theorem leafTypes_leaf {e : Expr} (h : isAnd e = false) : leafTypes e = [optimizeExpr e] := by
+  simp [leafTypes, infer_single h, Conj.single]
+
+/-- the pair test answers "no" exactly when no earlier/later pair intersects to EMPTY -/
+theorem emptyPair_false_iff (ls : List Scan) :
+    emptyPair ls = false ↔ ls.Pairwise (fun a b => andScan a b ≠ .empty) := by
+  induction ls with
+  | nil => simp [emptyPair]
+  | cons s rest ih =>
+    simp only [emptyPair, Bool.or_eq_false_iff, ih, List.pairwise_cons]
+    constructor
+    · rintro ⟨h1, h2⟩
+      refine ⟨fun t ht he => ?_, h2⟩
+      have := List.any_eq_false.mp h1 t ht
+      simp [he, Scan.isEmpty] at this
+    · rintro ⟨h1, h2⟩
+      refine ⟨List.any_eq_false.mpr (fun t ht => ?_), h2⟩
+      have := h1 t ht
+      cases hh : andScan s t <;> simp_all [Scan.isEmpty]
+
+/-- soundness of the pair test: when some key lies in the region of every conjunct, no pair
+    intersects to EMPTY (by `inter_sound`) -/
+theorem emptyPair_sound {ls : List Scan} {k : Bytes} (hw : ∀ s ∈ ls, WF s)
+    (hr : ∀ s ∈ ls, region s k) : emptyPair ls = false := by
+  rw [emptyPair_false_iff]
+  induction ls with
+  | nil => exact List.Pairwise.nil
+  | cons s rest ih =>
+    refine List.Pairwise.cons (fun t ht he => ?_)
+      (ih (fun x hx => hw x (List.mem_cons_of_mem _ hx)) (fun x hx => hr x (List.mem_cons_of_mem _ hx)))
+    have := inter_sound (hw s (List.mem_cons_self ..)) (hw t (List.mem_cons_of_mem _ ht))
+      (hr s (List.mem_cons_self ..)) (hr t (List.mem_cons_of_mem _ ht))
+    rw [he] at this
+    exact this
+
+/-- the invariant, for all three components -/
+def WFC (c : Conj) : Prop := WF c.whole ∧ WF c.tree ∧ ∀ s ∈ c.leaves, WF s
+
+theorem wfc_single {s : Scan} (h : WF s) : WFC (.single s) := by
+  refine ⟨h, h, ?_⟩
+  intro t ht; simp only [Conj.single, List.mem_singleton] at ht; exact ht ▸ h
+
+theorem wfc_and {L R : Conj} (hl : WFC L) (hr : WFC R) :
+    WFC ⟨if emptyPair (L.leaves ++ R.leaves) then .empty else andScan L.tree R.tree,
+      andScan L.tree R.tree, L.leaves ++ R.leaves⟩ := by
+  refine ⟨?_, andScan_wf hl.2.1 hr.2.1, ?_⟩
+  · show WF (if _ then _ else _)
+    split
+    · trivial
+    · exact andScan_wf hl.2.1 hr.2.1
+  · intro s hs
+    rcases List.mem_append.mp hs with h | h
+    · exact hl.2.2 s h
+    · exact hr.2.2 s h
+
+theorem wf_infer (e : Expr) : WFC (infer e) := by
+  fun_induction infer e
+  case case1 ihl ihr => exact wfc_and ihl ihr
+  case case2 ihl ihr => exact wfc_and ihl ihr
+  case case3 ihl ihr => exact wfc_single (orScan_wf ihl.1 ihr.1)
+  case case4 ihl ihr => exact wfc_single (orScan_wf ihl.1 ihr.1)
+  all_goals apply wfc_single
+  all_goals first
+    | exact equal_wf _ _ | exact prefix_wf _ _ | exact in_wf _ _ | exact between_wf _ _ | trivial
+    | (split <;> first | exact gtgte_wf _ _ | exact ltlte_wf _ _ _ | trivial)
+
 /-- `wf_optimizeExpr`: every scan type the optimizer infers satisfies the invariant (a RANGE
     has a bound, and start ≤ end when it has both) -/
-theorem wf_optimizeExpr (e : Expr) : WF (optimizeExpr e) := by
-  fun_induction optimizeExpr e
-  case case1 ihl ihr => exact andScan_wf ihl ihr
-  case case2 ihl ihr => exact andScan_wf ihl ihr
-  case case3 ihl ihr => exact orScan_wf ihl ihr
-  case case4 ihl ihr => exact orScan_wf ihl ihr
-  all_goals first
-    | exact equal_wf _ _ | exact prefix_wf _ _ | exact gtgte_wf _ _ | exact ltlte_wf _ _ _
-    | exact in_wf _ _ | exact between_wf _ _ | trivial
-    | (split <;> trivial)
+theorem wf_optimizeExpr (e : Expr) : WF (optimizeExpr e) := (wf_infer e).1
+
+theorem wf_andTree (e : Expr) : WF (andTree e) := (wf_infer e).2.1
+
+theorem wf_leafTypes (e : Expr) : ∀ s ∈ leafTypes e, WF s := (wf_infer e).2.2
 
 theorem isStr_iff {l : Expr} : isStr l = true ↔ ∃ p d, l = .str p d := by
   cases l <;> simp [isStr]
+
+/-- soundness of all three components -/
+def SoundC (c : Conj) (k : Bytes) : Prop := region c.whole k ∧ region c.tree k ∧ ∀ s ∈ c.leaves, region s k
+
+theorem soundC_single {s : Scan} {k : Bytes} (h : region s k) : SoundC (.single s) k := by
+  refine ⟨h, h, ?_⟩
+  intro t ht; simp only [Conj.single, List.mem_singleton] at ht; exact ht ▸ h
+
+theorem soundC_and {L R : Conj} {k : Bytes} (wl : WFC L) (wr : WFC R)
+    (hl : SoundC L k) (hr : SoundC R k) :
+    SoundC ⟨if emptyPair (L.leaves ++ R.leaves) then .empty else andScan L.tree R.tree,
+      andScan L.tree R.tree, L.leaves ++ R.leaves⟩ k := by
+  have hleaves : ∀ s ∈ L.leaves ++ R.leaves, region s k := by
+    intro s hs
+    rcases List.mem_append.mp hs with h | h
+    · exact hl.2.2 s h
+    · exact hr.2.2 s h
+  have hwf : ∀ s ∈ L.leaves ++ R.leaves, WF s := by
+    intro s hs
+    rcases List.mem_append.mp hs with h | h
+    · exact wl.2.2 s h
+    · exact wr.2.2 s h
+  have htree := inter_sound wl.2.1 wr.2.1 hl.2.1 hr.2.1
+  refine ⟨?_, htree, hleaves⟩
+  show region (if _ then _ else _) k
+  rw [emptyPair_sound hwf hleaves]
+  exact htree
+
+theorem sound_infer {ev : Expr → Bytes → Bool} (S : Sem ev) (e : Expr) (k : Bytes)
+    (h : ev e k = true) : SoundC (infer e) k := by
+  fun_induction infer e
+  case case1 ihl ihr =>
+    have := S.and_ _ _ _ _ h
+    exact soundC_and (wf_infer _) (wf_infer _) (ihl this.1) (ihr this.2)
+  case case2 ihl ihr =>
+    have := S.kwAnd _ _ _ _ h
+    exact soundC_and (wf_infer _) (wf_infer _) (ihl this.1) (ihr this.2)
+  case case3 l r ihl ihr =>
+    exact soundC_single (union_sound (wf_optimizeExpr l) (wf_optimizeExpr r)
+      ((S.or_ _ _ _ _ h).imp (fun x => (ihl x).1) (fun x => (ihr x).1)))
+  case case4 l r ihl ihr =>
+    exact soundC_single (union_sound (wf_optimizeExpr l) (wf_optimizeExpr r)
+      ((S.kwOr _ _ _ _ h).imp (fun x => (ihl x).1) (fun x => (ihr x).1)))
+  case case5 => exact soundC_single (prefix_sound S h)
+  case case6 => exact soundC_single (equal_sound S h)
+  case case7 p l r =>
+    apply soundC_single
+    split
+    · rename_i hs   -- 'lit' > key
+      obtain ⟨p1, d, rfl⟩ := isStr_iff.mp hs
+      refine ltlte_sound (by intro _ _ _ hh; cases hh) ?_
+      intro p1' p2 lit hl hr; cases hl; subst hr
+      have := S.gt_l _ _ _ _ _ h
+      exact ⟨List.le_of_lt this, fun _ => this⟩
+    · rename_i hs   -- key > 'lit'
+      refine gtgte_sound ?_ (by intro p1 p2 lit hl; subst hl; simp [isStr] at hs)
+      intro p1 p2 lit hl hr; subst hl; subst hr
+      exact List.le_of_lt (S.gt_r _ _ _ _ _ h)
+  case case8 p l r =>
+    apply soundC_single
+    split
+    · rename_i hs   -- 'lit' >= key
+      obtain ⟨p1, d, rfl⟩ := isStr_iff.mp hs
+      refine ltlte_sound (by intro _ _ _ hh; cases hh) ?_
+      intro p1' p2 lit hl hr; cases hl; subst hr
+      exact ⟨S.gte_l _ _ _ _ _ h, by simp⟩
+    · rename_i hs   -- key >= 'lit'
+      refine gtgte_sound ?_ (by intro p1 p2 lit hl; subst hl; simp [isStr] at hs)
+      intro p1 p2 lit hl hr; subst hl; subst hr
+      exact S.gte_r _ _ _ _ _ h
+  case case9 p l r =>
+    apply soundC_single
+    split
+    · rename_i hs   -- 'lit' < key
+      obtain ⟨p1, d, rfl⟩ := isStr_iff.mp hs
+      refine gtgte_sound (by intro _ _ _ hh; cases hh) ?_
+      intro p1' p2 lit hl hr; cases hl; subst hr
+      exact List.le_of_lt (S.lt_l _ _ _ _ _ h)
+    · rename_i hs   -- key < 'lit'
+      refine ltlte_sound ?_ (by intro p1 p2 lit hl; subst hl; simp [isStr] at hs)
+      intro p1 p2 lit hl hr; subst hl; subst hr
+      have := S.lt_r _ _ _ _ _ h
+      exact ⟨List.le_of_lt this, fun _ => this⟩
+  case case10 p l r =>
+    apply soundC_single
+    split
+    · rename_i hs   -- 'lit' <= key
+      obtain ⟨p1, d, rfl⟩ := isStr_iff.mp hs
+      refine gtgte_sound (by intro _ _ _ hh; cases hh) ?_
+      intro p1' p2 lit hl hr; cases hl; subst hr
+      exact S.lte_l _ _ _ _ _ h
+    · rename_i hs   -- key <= 'lit'
+      refine ltlte_sound ?_ (by intro p1 p2 lit hl; subst hl; simp [isStr] at hs)
+      intro p1 p2 lit hl hr; subst hl; subst hr
+      exact ⟨S.lte_r _ _ _ _ _ h, by simp⟩
+  case case11 => exact soundC_single (in_sound S h)
+  case case12 => exact soundC_single (between_sound S h)
+  case case13 => exact soundC_single trivial
+  case case14 pos data b =>
+    apply soundC_single
+    cases b
+    · rw [S.false_] at h; cases h
+    · trivial
+  case case15 => exact soundC_single trivial
 
 /-- `scan_sound` (C02, planner): for every WHERE tree, every evaluator bounded by the documented
     meaning of the key atoms, and every key — if the filter can hold on the key, the key is in
     the region of the inferred scan type.  No depth bound, no literal bound. -/
 theorem scan_sound {ev : Expr → Bytes → Bool} (S : Sem ev) (e : Expr) (k : Bytes)
-    (h : ev e k = true) : region (optimizeExpr e) k := by
-  fun_induction optimizeExpr e
-  case case1 l r ihl ihr =>
-    have := S.and_ _ _ _ _ h
-    exact inter_sound (wf_optimizeExpr l) (wf_optimizeExpr r) (ihl this.1) (ihr this.2)
-  case case2 l r ihl ihr =>
-    have := S.kwAnd _ _ _ _ h
-    exact inter_sound (wf_optimizeExpr l) (wf_optimizeExpr r) (ihl this.1) (ihr this.2)
-  case case3 l r ihl ihr =>
-    exact union_sound (wf_optimizeExpr l) (wf_optimizeExpr r) ((S.or_ _ _ _ _ h).imp ihl ihr)
-  case case4 l r ihl ihr =>
-    exact union_sound (wf_optimizeExpr l) (wf_optimizeExpr r) ((S.kwOr _ _ _ _ h).imp ihl ihr)
-  case case5 => exact prefix_sound S h
-  case case6 => exact equal_sound S h
-  case case7 l r hs =>   -- 'lit' > key
-    obtain ⟨p1, d, rfl⟩ := isStr_iff.mp hs
-    refine ltlte_sound (by intro _ _ _ hh; cases hh) ?_
-    intro p1' p2 lit hl hr; cases hl; subst hr
-    have := S.gt_l _ _ _ _ _ h
-    exact ⟨List.le_of_lt this, fun _ => this⟩
-  case case8 l r hs =>   -- key > 'lit'
-    refine gtgte_sound ?_ (by intro p1 p2 lit hl; subst hl; simp [isStr] at hs)
-    intro p1 p2 lit hl hr; subst hl; subst hr
-    exact List.le_of_lt (S.gt_r _ _ _ _ _ h)
-  case case9 l r hs =>   -- 'lit' >= key
-    obtain ⟨p1, d, rfl⟩ := isStr_iff.mp hs
-    refine ltlte_sound (by intro _ _ _ hh; cases hh) ?_
-    intro p1' p2 lit hl hr; cases hl; subst hr
-    exact ⟨S.gte_l _ _ _ _ _ h, by simp⟩
-  case case10 l r hs =>  -- key >= 'lit'
-    refine gtgte_sound ?_ (by intro p1 p2 lit hl; subst hl; simp [isStr] at hs)
-    intro p1 p2 lit hl hr; subst hl; subst hr
-    exact S.gte_r _ _ _ _ _ h
-  case case11 l r hs =>  -- 'lit' < key
-    obtain ⟨p1, d, rfl⟩ := isStr_iff.mp hs
-    refine gtgte_sound (by intro _ _ _ hh; cases hh) ?_
-    intro p1' p2 lit hl hr; cases hl; subst hr
-    exact List.le_of_lt (S.lt_l _ _ _ _ _ h)
-  case case12 l r hs =>  -- key < 'lit'
-    refine ltlte_sound ?_ (by intro p1 p2 lit hl; subst hl; simp [isStr] at hs)
-    intro p1 p2 lit hl hr; subst hl; subst hr
-    have := S.lt_r _ _ _ _ _ h
-    exact ⟨List.le_of_lt this, fun _ => this⟩
-  case case13 l r hs =>  -- 'lit' <= key
-    obtain ⟨p1, d, rfl⟩ := isStr_iff.mp hs
-    refine gtgte_sound (by intro _ _ _ hh; cases hh) ?_
-    intro p1' p2 lit hl hr; cases hl; subst hr
-    exact S.lte_l _ _ _ _ _ h
-  case case14 l r hs =>  -- key <= 'lit'
-    refine ltlte_sound ?_ (by intro p1 p2 lit hl; subst hl; simp [isStr] at hs)
-    intro p1 p2 lit hl hr; subst hl; subst hr
-    exact ⟨S.lte_r _ _ _ _ _ h, by simp⟩
-  case case15 => exact in_sound S h
-  case case16 => exact between_sound S h
-  case case17 => trivial
-  case case18 => trivial
-  case case19 pos data b hb =>
-    have hb' : b = false := by simpa using hb
-    subst hb'
-    rw [S.false_] at h
-    cases h
-  case case20 => trivial
+    (h : ev e k = true) : region (optimizeExpr e) k := (sound_infer S e k h).1
 
 end Kvql.Scan
